@@ -189,6 +189,14 @@ func verifyUnit(p *Program, u *Unit) (res *UnitResult) {
 		}
 	}
 	r.oblige(st, "canary", "entry", "false", nil, "preconditions are satisfiable (must NOT be provable)", nil)
+	defer func() {
+		// an intermediate fact that could not be evaluated on any return path is a contract error, not a silent no-op
+		for i, why := range r.haveSkipped {
+			if !r.haveDone[i] {
+				r.limit("have clause %d is never evaluated: %s", i, why)
+			}
+		}
+	}()
 	r.execBlock(st, u.Body, func(s2 *State) {
 		if u.Sig.Results().Len() > 0 {
 			// falling off the end is impossible for functions with results (compiler-checked)
